@@ -66,8 +66,9 @@ def plan_case(sql, integrations=None, default_namespace='mindsdb', extra=None):
             if (d, name) in SCHEMA and (d, name) not in tabs:
                 tabs.append((d, name))
     out['status'] = 'ok'
-    out['plan'] = {'orig': orig, 'steps': steps, 'defdb': '',
-                   'tables': [{'db': d, 'name': n, 'cols': SCHEMA[(d, n)]} for d, n in tabs]}
+    out['plan'] = {'orig': orig, 'steps': steps, 'defdb': '', 'ts': {'on': 0},
+                   'tables': [{'db': d, 'name': n, 'cols': SCHEMA[(d, n)], 'rowset': [list(r) for r in ROWSET],
+                               'maxrows': 2} for d, n in tabs]}
     return out
 
 
